@@ -9,7 +9,7 @@ import numpy
 from hypothesis import strategies as st
 
 from pbt import files
-from pbt.core import call
+from pbt.core import call, draw_tz
 
 PROP = "C19"
 TECHNIQUE = "Hypothesis-generated event lists rendered by independent reference encoders into each text format, loaded through csep.load_catalog and compared with the generating list after the format's own quantisation (round trip / differential)"
@@ -189,7 +189,7 @@ def cases(draw, max_n=50):
         c["nl"] = draw(st.booleans())
     if draw(st.integers(0, 3)) == 0:
         c["format"] = "csep"       # documented alternative of format='native': same records in the CSEP catalog class
-    return c
+    return draw_tz(draw, c)
 
 
 def fuzz_strategy(ctx):
